@@ -274,6 +274,20 @@ def main():
                        "first_op": case[k] if k < len(case) else None,
                        "real": obs[k] if k < len(obs) else None, "model": mo[k] if k < len(mo) else None})
 
+    # 4b. witness histories (shrunk histories of repaired / known defects): always replayed on the real code
+    witness_fail = []
+    if cfg.get("witnesses"):
+        import witness
+        for wname in cfg["witnesses"]:
+            res = witness.run(wname)
+            evals += 1
+            if res:
+                kf = next((f for f in findings if f.get("witness") == wname), None)
+                if kf:
+                    known_hit.setdefault(kf["id"], kf)
+                else:
+                    witness_fail.append((wname, res))
+
     # 5. verdict
     rc = 0
     out_lines = []
@@ -281,7 +295,16 @@ def main():
         out_lines.append(f"KNOWN-FINDING: property={prop} {kf['id']} {kf['what']}")
     # registered findings that have a witness must still reproduce (else correspondence changed)
     replay_path = None
-    if violations:
+    if witness_fail and not violations:
+        wname, res = witness_fail[0]
+        replay_path = os.path.join(VERIF, "replays", f"{prop}-{seed}-{int(time.time())}-witness-{wname}.json")
+        json.dump({"property": prop, "kind": "concrete-failing-input", "witness": wname, "detail": res,
+                   "doc": (getattr(__import__("witness"), wname).__doc__ or "").strip(),
+                   "broken_obligations": broken,
+                   "how_to_replay": f"PYTHONPATH=py:/repo/src /venv/bin/python py/witness.py {wname}"}, open(replay_path, "w"), indent=1)
+        out_lines.append(f"VIOLATION property={prop} replay={replay_path}")
+        rc = 1
+    elif violations:
         sname, case, obs, clause, detail, i = violations[0]
         s = streams[sname]
 
@@ -302,7 +325,7 @@ def main():
                   open(replay_path, "w"), indent=1)
         out_lines.append(f"VIOLATION property={prop} replay={replay_path}")
         rc = 1
-    elif broken:
+    elif broken and not witness_fail:
         replay_path = os.path.join(VERIF, "replays", f"{prop}-{seed}-{int(time.time())}-unproved.json")
         body = {"property": prop, "kind": "obligation-no-longer-checks", "broken_obligations": broken,
                 "theorems": [t["name"] for t in theorems],
@@ -342,11 +365,12 @@ def main():
             "model_vs_real_disagreements": len(disagreements),
             "extraction": {"anchors": len(rep["anchors"]), "missing": rep["missing"], "sources": rep["sources"]},
             "known_findings_hit": sorted(known_hit),
+            "witness_histories_replayed": cfg.get("witnesses", []),
             "notes": notes,
         },
         "assumptions": cfg.get("assumptions", []),
         "wall_s": round(time.time() - t0, 2),
-        "violations": len(violations) + (1 if (broken and not violations) else 0),
+        "violations": len(violations) + len(witness_fail) + (1 if (broken and not violations and not witness_fail) else 0),
     }
     json.dump(ev, open(os.path.join(VERIF, "evidence", f"{prop}.json"), "w"), indent=1)
     for l in out_lines:
